@@ -47,9 +47,11 @@ def getreg(obj, n, bank=env.R):
 def ebpf_alu_(obj, s, dreg, sreg, off, imm):
     dst = getreg(obj, dreg, env.E)
     src = env.cst(imm.int(-1), 32) if s == 0 else getreg(obj, sreg, env.E)
-    src.sf = True
+    # the flag is put on a copy: a register source is shared by the whole module
     if obj.mnemonic in ("or", "and", "xor", "neg", "end"):
-        src.sf = False
+        src = src.unsigned()
+    else:
+        src = src.signed()
     obj.operands = [dst, src]
     obj.type = type_data_processing
 
@@ -72,9 +74,11 @@ def ebpf_alu_(obj, s, dreg, sreg, off, imm):
 def ebpf_alu_(obj, s, dreg, sreg, off, imm):
     dst = getreg(obj, dreg)
     src = env.cst(imm.int(-1), 32).zeroextend(64) if s == 0 else getreg(obj, sreg)
-    src.sf = True
+    # the flag is put on a copy: a register source is shared by the whole module
     if obj.mnemonic in ("or", "and", "xor", "neg", "end"):
-        src.sf = False
+        src = src.unsigned()
+    else:
+        src = src.signed()
     obj.operands = [dst, src]
     obj.type = type_data_processing
 
